@@ -42,6 +42,9 @@ def items(tier, seed):
         its.append((name, 0))
         for r in range(len(lib_roots(st))):
             its.append((name, r + 1))
+    # periodic meshes made by the library: the sharing model is purely topological and applies unchanged
+    for name in ms.periodic_roots(seed):
+        its.append((name, 0))
     return its
 
 
@@ -187,10 +190,11 @@ def work(item, tier, seed):
         work_elemref(item[1], out)
         return out
     name, r = item
-    st0 = ms.seeds(seed)[name]
+    periodic = name.startswith('P:')
+    st0 = ms.periodic_roots(seed)[name] if periodic else ms.seeds(seed)[name]
     root = st0 if r == 0 else lib_roots(st0)[r - 1]
     n = 0
-    for evn in ms.bfs([(root, budget(root, tier))], ms.raw_transitions, 0):
+    for evn in ms.bfs([(root, 0 if periodic else budget(root, tier))], ms.raw_transitions, 0):
         if evn[0] == 'edge':
             out.transitions += 1
             continue
@@ -304,6 +308,9 @@ def deep_checks(st, m, T, ent, elem, keys, ed, N, bad, out):
         try:
             b = CellBasis(m, ent.make(), intorder=1)
         except Exception as e:
+            if st.cls.endswith('DG') and ent.family in ('C1', 'Morley', 'P15', 'Hermite') or (st.cls.endswith('DG') and 'Global' in str(type(ent.make()).__mro__)):
+                out.count('global_element_on_periodic_mesh_unsupported:' + ent.name)   # loud limitation of the library
+                return
             bad('basis-exception', repr(e))
             return
     if b.N != N or not np.array_equal(b.element_dofs, ed):
@@ -311,6 +318,8 @@ def deep_checks(st, m, T, ent, elem, keys, ed, N, bad, out):
         return
     # DOF locations: the same mapped point from every cell that references the DOF
     dl = getattr(b, 'doflocs', None)
+    if st.cls.endswith('DG'):
+        dl = None       # an identified DOF has two geometric locations: the location table is not single-valued by design
     if dl is not None:
         try:
             loc = b.mapping.F(b.elem.doflocs.T)       # (dim, nt, Nbfun)
